@@ -95,9 +95,14 @@ class Rng(Interp):
         saved = self.depth
         self.depth = 0
         try:
-            return super().summary(func, selfobj, bound, env, ctx, n)
+            summ = super().summary(func, selfobj, bound, env, ctx, n)
         finally:
             self.depth = saved
+        if getattr(func, "cached", False) and summ is not None and isinstance(summ.ret, GenV) and not (isinstance(summ.ret.seed, tuple) and summ.ret.seed[:1] == ("memoised",)):
+            # a memoised function hands every caller the *same* generator object: its position in the stream carries over
+            # from call to call, whatever seed it was built from
+            summ.ret = GenV(summ.ret.site, ("memoised", repr(summ.ret.seed)))
+        return summ
 
     def _loop(self, s, env, ctx, is_for):
         self.depth += 1
